@@ -19,7 +19,8 @@ ANCHORS = ["XMLFileWriter.write_to_file", "XMLFileWriter.write_scenario_to_file"
            "ProtobufFileWriter.write_scenario_to_file", "FileWriter._handle_file_path", "float_to_str"]
 REQUIRED = ["event.construct", "event.write", "event.write-scenario", "event.skip", "skip.existing-empty", "skip.existing-bytes", "same-writer-twice",
             "other-writer-constructed-in-between", "other-format-in-between", "identically-constructed-second-writer",
-            "reference-read-back-ok"]
+            "reference-read-back-ok", "target.file-of-previous-write.pb", "target.file-of-previous-write.xml",
+            "target.existing-longer-file.pb", "target.existing-longer-file.xml"]
 EXHAUSTIVE = {"quick": "all valid event histories of length <= 3 over 2 writers x 4 configuration pairs",
               "thorough": "all valid event histories of length <= 4 over 2 writers x 8 configuration pairs"}
 ASSUMPTIONS = ["the reference is the output of a fresh writer in a clean child process with the same PYTHONHASHSEED "
@@ -79,6 +80,7 @@ def run(ctx):
         writes_by = {}
         trace = []
         constructed_after_last_write_of = {}
+        kept = {}  # format -> longest raw file this history has produced so far
         for kind, name in events:
             trace.append([kind, name, list(cfgs[name])])
             fmt, prec = cfgs[name]
@@ -100,6 +102,19 @@ def run(ctx):
                 w = writers[name]
                 path = os.path.join(tmp, "c15_%d_%d%s" % (os.getpid(), len(trace), ".xml" if fmt == "xml" else ".pb"))
                 if kind in ("write", "write-scenario"):
+                    # the target of an ALWAYS write: a new file name, the file the previous write of this history left
+                    # behind (typically longer: write_to_file, then write_scenario_to_file to the same name), or an
+                    # existing longer file with foreign content -- the produced content must not depend on it
+                    target = ("new", "left-by-previous-write", "foreign-longer")[(len(trace) + seed) % 3]
+                    if target == "left-by-previous-write" and kept.get(fmt):
+                        with open(path, "wb") as f:
+                            f.write(kept[fmt])
+                        ctx.feature("target.file-of-previous-write." + fmt)
+                    elif target != "new":
+                        with open(path, "wb") as f:
+                            f.write((b"<!-- foreign -->\n" if fmt == "xml" else b"\x0a\x07foreign") * 4096)
+                        ctx.feature("target.existing-longer-file." + fmt)
+                    wit["target"] = target
                     ctx.feature("event." + kind)
                     if writes_by.get(name):
                         ctx.feature("same-writer-twice")
@@ -109,8 +124,14 @@ def run(ctx):
                     c15_ref.write(w, method, path)
                     writes_by[name] = writes_by.get(name, 0) + 1
                     with open(path, "rb") as f:
-                        data = c15_ref.normalise(f.read(), fmt)
+                        raw = f.read()
                     os.remove(path)
+                    if len(raw) > len(kept.get(fmt, b"")):
+                        kept[fmt] = raw
+                    try:
+                        data = c15_ref.normalise(raw, fmt)
+                    except Exception as e:  # noqa
+                        data = b"<unparseable: %s>" % type(e).__name__.encode()
                     ctx.evaluation()
                     ref = reference(seed, fmt, prec, method)
                     if ref[0] != "ok":
